@@ -12,6 +12,7 @@ EXPL = ("R11.1 count flow: in each of the three observation-capture bodies every
         "scale_down(midpoint)*count, count} and use the same bucket configuration. Pure arithmetic adapters (min/max/casts) are "
         "ignored. R11.5 methods of the strategies shared between threads never write an atomic with a plain store (read-modify-write only); R11.4 an exponential drain visits every bucket of its snapshot (no take_while/take/skip/step_by on the bucket iteration, directly or "
         "in a helper); R11.3 the sort-and-merge drain groups observations on exact equality only (no tolerance arithmetic feeds the merge decision). "
+        "R11.3 #sorts-on-every-path: that drain sorts its buffer on every path to the run merging; the only skip accepted is one decided by the buffer's own length. "
         "Not decided: the 6.25% / 1/1024 error bounds, totals (numeric).")
 AG = "metrique_aggregation"
 
@@ -524,6 +525,32 @@ def run(ctx):
                 for cb in closure_args(F, c):
                     grouped.append((d, cb))
     ctx.floor("R11.3", "sort-and-merge drain", len(sm) + len(grouped), 1)
+    # R11.3 #sorts-on-every-path (seed S132): "ascending order with equal values merged" for every multiset needs the whole buffer
+    # sorted before the run merging on every path of the drain; the only skip accepted is one decided by the buffer's own length
+    # (nothing / one value to sort). A skip decided by remembered state ("values arrived in order so far") is exact only if every
+    # recording path maintains that state - record_many, re-aggregation, a future entry point - which no local rule can promise.
+    for d0 in sm0:
+        sbbs = [c.bb for c in d0.calls() if c.name in SORTS]
+        bad_sw = None
+        if not d0.must_pass(sbbs):
+            prd = Prov(d0)
+            for sb in sbbs:
+                for gi, gt, yes, no in controlling_switches(d0, sb):
+                    rv = discr_def(d0, gi, gt)
+                    by_len = False
+                    if rv is not None and rv.get("k") == "call":
+                        by_len = (rv["term"].get("callee") or {}).get("name") in ("is_empty", "len")
+                    elif rv is not None and rv.get("k") == "binop":
+                        o = prd.operand(rv["a"]) | prd.operand(rv["b"])
+                        by_len = any(x[0] == "call" and (d0.term(x[1]).get("callee") or {}).get("name") in ("len", "is_empty") for x in o)
+                    if not by_len:
+                        bad_sw = gi
+            if bad_sw is None and not any(controlling_switches(d0, sb) for sb in sbbs):
+                bad_sw = sbbs[0]
+        ctx.check(bad_sw is None, "R11.3", fnkey(d0) + "#sorts-on-every-path", loc(d0, bad_sw if bad_sw is not None else sbbs[0]),
+                  "the sort-and-merge drain can reach its run merging without sorting the buffer, on a condition that is not the buffer's "
+                  "length: values recorded out of order through any path that does not maintain that condition are reported unsorted and "
+                  "equal values unmerged")
     for d0, cb in grouped:
         prg = Prov(cb, adapter_pred=lambda t: (t.get("callee") or {}).get("name") in ("deref",))
         decided = None
